@@ -25,14 +25,17 @@ func (c *wsConn) tryDelete(s *Subscription) {
 		return
 	}
 
-	refs := make(map[string]*subRef, len(s.refs)+1)
+	// Subscriptions are identified by pointer, not by resource ID: a disposed
+	// subscription that is still referenced and a newer subscription to the
+	// same resource must not share one entry.
+	refs := make(map[*Subscription]*subRef, len(s.refs)+1)
 	rr := &subRef{
 		sub:          s,
 		indirect:     s.indirect,
 		indirectsent: s.indirectsent,
 		state:        gcStateNone,
 	}
-	refs[s.RID()] = rr
+	refs[s] = rr
 
 	sent := s.IsSent()
 	sentDiff := 0
@@ -46,12 +49,12 @@ func (c *wsConn) tryDelete(s *Subscription) {
 			return gcStateNone
 		}
 
-		if r, ok := refs[s.RID()]; ok {
+		if r, ok := refs[s]; ok {
 			r.indirect--
 			r.indirectsent -= sentDiff
 			return gcStateStop
 		}
-		refs[s.RID()] = &subRef{
+		refs[s] = &subRef{
 			sub:          s,
 			indirect:     s.indirect - 1,
 			indirectsent: s.indirectsent - sentDiff,
@@ -68,7 +71,7 @@ func (c *wsConn) tryDelete(s *Subscription) {
 
 	// Mark for deletion or unsend
 	s.traverse(gcStateDelete, func(s *Subscription, state gcState) gcState {
-		r := refs[s.RID()]
+		r := refs[s]
 
 		if r.state >= gcStateKeep {
 			return gcStateStop
@@ -91,11 +94,13 @@ func (c *wsConn) tryDelete(s *Subscription) {
 		return gcStateDelete
 	})
 
-	for rid, ref := range refs {
+	for sub, ref := range refs {
 		switch ref.state {
 		case gcStateDelete:
-			ref.sub.Dispose()
-			delete(c.subs, rid)
+			sub.Dispose()
+			if c.subs[sub.rid] == sub {
+				delete(c.subs, sub.rid)
+			}
 		case gcStateUnsend:
 			ref.sub.Unsend()
 		}
